@@ -107,8 +107,8 @@ Lemma mark_pv_keys best l m : In m l -> exists m', In m' (mark_pv best l) /\ zob
 Proof.
   unfold mark_pv. destruct best as [b0|]; [|eauto]. induction l as [|x t IH]; intros H; [destruct H|].
   destruct H as [<-|H].
-  - destruct (opt_mv2_eqb (last_move x) (last_move b0)); [exists (with_oh x POS_INF)|exists x]; split; try (left; reflexivity); reflexivity.
-  - destruct (opt_mv2_eqb (last_move x) (last_move b0)); [exists m; split; [right; exact H|reflexivity]|].
+  - destruct (is_pv_of b0 x); [exists (with_oh x POS_INF)|exists x]; split; try (left; reflexivity); reflexivity.
+  - destruct (is_pv_of b0 x); [exists m; split; [right; exact H|reflexivity]|].
     destruct (IH H) as (m' & Hm' & K). exists m'. split; [right; exact Hm'|exact K].
 Qed.
 
